@@ -4,21 +4,21 @@
  *                      rejected before the ring equation is consulted only if one of those gates fails
  *   h_verify_binding : the message hash absorbs ser(commit) || ser(genp) || header || per digit
  *                      (sign byte, 32 bytes) || extra_commit (full length) and its digest is the ring message
- * Oracles (assumed, with ghost verdict logs): ge_set_xquad, fe_is_square_var, gej_add_ge_var,
- * pedersen_ecmult_small, borromean_verify.  pub_expand is replaced by its call-site contract (its real
- * body is checked in C07.rangeproof_verify).  sha256_write/_finalize: stream contracts of hash_log.h.
- * scalar_set_b32 / fe_set_b32_limit: call-site stubs (real function at the watched position, proved
- * invariant elsewhere; see assumed_rangeproof.h RP_STUB_READERS and units C10.leaf_*).
+ * Oracles (assumed, call-site stubs with ghost verdict logs, see assumed_rangeproof.h part B): ge_set_xquad,
+ * fe_is_square_var, gej_add_ge_var, pedersen_ecmult_small, borromean_verify.  pub_expand is replaced by its
+ * DFCC call-site contract (its real body is checked in C07.rangeproof_verify).  sha256_write/_finalize:
+ * the stream contracts of hash_log.h as stubs.  scalar_set_b32 / fe_set_b32_limit: real function at the
+ * watched position, proved invariant elsewhere (units C10.leaf_*).
  * The header is decoded a second time by the real secp256k1_rangeproof_getheader_impl, which
  * C10.getheader proves equal to the header specification. */
-#define RP_XQUAD
-#define RP_ISSQUARE
-#define RP_ADD_GE
-#define RP_PED_SMALL
-#define RP_PUB_EXPAND
-#define RP_BORRO_VERIFY
+#define RP_STUB_XQUAD
+#define RP_STUB_ISSQUARE
+#define RP_STUB_ADD_GE
+#define RP_STUB_PED_SMALL
+#define RP_STUB_BORRO_VERIFY
+#define RP_STUB_SHA
 #define RP_STUB_READERS
-#include "hash_log.h"
+#define RP_PUB_EXPAND
 #include "assumed_rangeproof.h"
 #include "src/secp256k1.c"
 #include "post.h"
@@ -56,7 +56,7 @@ static size_t rp_rsize(const struct rp_layout *L, size_t k) { return L->mantissa
 static void rp_reset(size_t gk, size_t gb) {
     g_xq_n = 0; g_xq_hit = 0; g_xq_and = 1; g_sq_n = 0; g_sq_hit = 0; g_ag_n = 0; g_ag_hit = 0; g_ag_last_inf = 0; g_ps_n = 0; g_pe_n = 0; g_bv_n = 0; g_bv_v = 0;
     g_rp_k = gk; g_rp_b = gb; g_xq_watch = (int)gk; g_ag_watch = (int)gk;
-    g_sb_n = 0; g_sb_hit = 0; g_sb_or = 0; g_sb_wp = NULL; g_fl_n = 0; g_fl_hit = 0; g_fl_and = 1; g_fl_wp = NULL;
+    g_sb_n = 0; g_sb_hit = 0; g_sb_or = 0; rp_watch_scalar(NULL); g_fl_n = 0; g_fl_hit = 0; g_fl_and = 1; rp_watch_fe(NULL);
     HASHLOG_RESET();
 }
 
@@ -64,7 +64,7 @@ void h_verify_gates(void) {
     INPUT(size_t, plen); INPUT(size_t, eclen); INPUT(_Bool, use_extra); INPUT(secp256k1_ge, commit); INPUT(secp256k1_ge, genp);
     INPUT(size_t, gk); INPUT(size_t, gb);
     unsigned char *proof, *extra; uint64_t minv, maxv; secp256k1_hash_ctx hc; int ret; struct rp_layout L;
-    int spare_ok = 1;
+    int spare_ok = 1; wide xbytes = 0, sbytes = 0;   /* the watched 32-byte strings as integers */
     __CPROVER_assume(plen <= MAXP && eclen <= MAXE && gk < 128 && gb < 32);
     __CPROVER_assume(ge_ok(&commit) && !commit.infinity && ge_ok(&genp) && !genp.infinity);
     INPUT_BUF(pf, proof, plen, 32);
@@ -73,8 +73,8 @@ void h_verify_gates(void) {
     rp_reset(gk, gb); g_we = 0; g_wpos = 0; g_sq_watch = 0;
     L = rp_spec(proof, plen);             /* pure function of the proof bytes */
     /* watched buffer positions: digit commitment gk and ring scalar gk of the specified layout */
-    if (L.ok && L.total <= plen && gk < L.rings - 1) g_fl_wp = proof + L.digit_off + 32 * gk;
-    if (L.ok && L.total <= plen && gk < L.npub) g_sb_wp = proof + L.s_off + 32 * gk;
+    if (L.ok && L.total <= plen && gk < L.rings - 1) { rp_watch_fe(proof + L.digit_off + 32 * gk); xbytes = be256(g_fl_wp); }
+    if (L.ok && L.total <= plen && gk < L.npub) { rp_watch_scalar(proof + L.s_off + 32 * gk); sbytes = be256(g_sb_wp); }
     ret = secp256k1_rangeproof_verify_impl(&hc, NULL, NULL, NULL, NULL, NULL, NULL, &minv, &maxv, &commit, proof, plen, use_extra ? extra : NULL, use_extra ? eclen : 0, &genp);
     WITNESS_BUF(pf, proof, plen, 32);
     __CPROVER_assert(ret == 0 || ret == 1, "C10 verify gates: returns 0 or 1");
@@ -87,13 +87,13 @@ void h_verify_gates(void) {
         if ((L.rings - 1) & 7) __CPROVER_assert((proof[L.digit_off - 1] >> ((L.rings - 1) & 7)) == 0, "C10 verify gates: spare sign bits are zero");
         __CPROVER_assert(g_xq_n == (int)(L.rings - 1) && g_xq_and == 1 && g_fl_n == g_xq_n && g_fl_and == 1, "C10 verify gates: one range check and one lift per digit commitment, all positive");
         if (gk < L.rings - 1) {
-            __CPROVER_assert(g_fl_hit && g_fl_wv == 1 && be256(g_fl_wp) < P_(), "C10 verify gates: every digit commitment x < p");
-            __CPROVER_assert(g_xq_hit && g_xq_v == 1 && FE_EQ(g_xq_x, g_fl_wr) && fval(&g_xq_x) == be256(g_fl_wp), "C10 verify gates: lift verdict consulted for exactly this digit's x and positive");
+            __CPROVER_assert(g_fl_hit && g_fl_wv == 1 && xbytes < P_(), "C10 verify gates: every digit commitment x < p");
+            __CPROVER_assert(g_xq_hit && g_xq_v == 1 && FE_EQ(g_xq_x, g_fl_wr) && fval(&g_xq_x) == xbytes, "C10 verify gates: lift verdict consulted for exactly this digit's x and positive");
         }
         __CPROVER_assert(g_sb_n == (int)L.npub && g_sb_or == 0, "C10 verify gates: one scalar read per ring member, none overflowing");
         if (gk < L.npub) {
-            __CPROVER_assert(g_sb_hit && g_sb_wovf == 0 && be256(g_sb_wp) < N_(), "C10 verify gates: every ring scalar < n");
-            __CPROVER_assert(SC_EQ(g_bv_s_k, g_sb_wr) && sval(&g_bv_s_k) == be256(g_sb_wp), "C10 verify gates: ring scalar k handed to the ring equation is proof scalar k");
+            __CPROVER_assert(g_sb_hit && g_sb_wovf == 0 && sbytes < N_(), "C10 verify gates: every ring scalar < n");
+            __CPROVER_assert(SC_EQ(g_bv_s_k, g_sb_wr) && sval(&g_bv_s_k) == sbytes, "C10 verify gates: ring scalar k handed to the ring equation is proof scalar k");
         }
         __CPROVER_assert(g_pe_n == 1 && g_pe_exp == L.exp && g_pe_rings == L.rings && g_pe_genp == &genp, "C10 verify gates: pub_expand gets the header exponent, the ring count and the generator");
         if (gk < L.rings) __CPROVER_assert(g_pe_rs_k == rp_rsize(&L, gk) && g_bv_rs_k == rp_rsize(&L, gk), "C10 verify gates: ring sizes are 4,...,4[,2] (1 for an exact value) for expansion and ring equation");
